@@ -138,6 +138,21 @@ pub fn battery(s: &McState) -> String {
         guarded(|| prunes::proc_permutations(&pnames)(s).is_some()),
         guarded(|| prunes::proc_permutations(&rev)(s).is_some())
     ));
+    // processes in the order of their first mention in the current run (computed here, not by the library)
+    let mut fm: Vec<String> = vec![];
+    for e in cur {
+        let q = match e {
+            LogEntry::McMessageReceived { src, .. } => Some(src.clone()),
+            LogEntry::McTimerFired { proc, .. } => Some(proc.clone()),
+            _ => None,
+        };
+        if let Some(q) = q {
+            if !fm.contains(&q) {
+                fm.push(q);
+            }
+        }
+    }
+    items.push(format!("fm={}", fm.join(".")));
     items.push(format!("csd={}", tri(&mut |x| b(collects::state_depth(x)(s)), d)));
     // short-circuit of all_invariants: the counting rules record how often they were invoked
     let c1 = Rc::new(RefCell::new(0u64));
